@@ -209,6 +209,38 @@ class Run:
                     cur.append(l)
         return res
 
+    def driver_selftest(self, results):
+        """trusted-base mitigation: corrupt one result value in a real trace and demand that the driver reports a
+        divergence (a replay that accepts anything would hide every code change)"""
+        if not (self.lean_ok and os.path.exists(DRIVER)):
+            return "skipped"
+        for r in results:
+            for k in range(16):
+                tf = os.path.join(self.out, f"{r['family']}.main.{k}.trace")
+                if not os.path.exists(tf):
+                    continue
+                lines, cur = [], []
+                for l in open(tf):
+                    cur.append(l)
+                    if l.startswith("#end"):
+                        if any(" a " in x for x in cur) and "#end ok" in l:
+                            lines = cur
+                            break
+                        cur = []
+                if not lines:
+                    continue
+                for i, l in enumerate(lines):
+                    w = l.split()
+                    if len(w) == 9 and w[1] == "a" and w[3] in ("load", "swap", "fetch_add", "fetch_sub", "cas", "uload", "fetch_or") and re.fullmatch(r"-?\d+", w[6]):
+                        w[6] = str(int(w[6]) + 1)
+                        mut = lines[:i] + [" ".join(w) + "\n"] + lines[i + 1:]
+                        p = subprocess.run([DRIVER], input="".join(mut), capture_output=True, text=True, timeout=120)
+                        if "DIV " in p.stdout:
+                            return "ok"
+                        self.problems.append(("driver-selftest", f"the driver accepted a trace of family {r['family']} whose event #{i} result was corrupted"))
+                        return "FAILED"
+        return "no-suitable-trace"
+
     def scenario_text(self, tf, seed):
         out, on = [], False
         for l in open(tf):
@@ -237,6 +269,7 @@ class Run:
         for fam in fams:
             n = fam[self.tier] if self.tier in fam else fam["quick"]
             results.append(self.run_family(fam, self.seed * 1000003 % (1 << 40), n, "main"))
+        self.selftest = self.driver_selftest(results)
         extra = self.cfg.get("extra_check")
         extra_out = None
         if extra:
@@ -342,6 +375,7 @@ class Run:
                                oracle_failures=len(r["oracle"]), divergences=len(r["div"]), distinct_nontrivial=len(r["hashes"]),
                                unresolved_sites=sorted(r["unresolved"])) for r in results],
                 search_after_break_runs=searched,
+                driver_selftest=getattr(self, "selftest", None),
                 extra=(extra_out or {}).get("info"),
                 explanation=self.cfg.get("explanation", ""),
             ),
